@@ -17,6 +17,10 @@ CHECKS = {
          "the damaged-handle clause is partial: exercised by a differential hostile-file stream in a sandboxed child where any panic/crash/hang/large "
          "allocation of the real code is a violation.",
          "Lean 4 theorems (case analysis, induction) + differential fuzzing of decoders and Open for model validation", "§5 C15"),
+ "C19": ("parse(print d) = d for all 2^31 non-negative durations, exactness of every accepted duration string (digits x unit, no wrap) and the "
+         "listed rejections are Lean theorems about a model of leadingInt/ParseDuration/Duration.String with the int32 overflow tests as written; "
+         "method names by a complete table. Timestamps and retention lists are partial: an executable calendar/list model compared with the code.",
+         "Lean 4 theorems (strong induction on digit strings, omega) + exhaustive/boundary differential check of printers and parsers", "§5 C19"),
 }
 PENDING = {}
 def main():
